@@ -59,8 +59,12 @@ def _native_worker(args):
     return native_check(c, n_cases, seed, size)
 
 
-def native_check(c, n_cases, seed, size=4):
+SEARCH_BUDGET_S = float(os.environ.get('VERIF_SEARCH_BUDGET_S', '60'))
+
+
+def native_check(c, n_cases, seed, size=4, time_budget_s=None):
     """execute the contract on the real function over generated inputs"""
+    t_start = time.time()
     spec = c.native
     out = dict(function=c.qualname, form=spec.get('form', 'seeded-random'), cases=0, accepted=0,
                distinct=0, failures=[], error=None, bound=spec.get('bound', f'size<={size}'))
@@ -87,6 +91,9 @@ def native_check(c, n_cases, seed, size=4):
                 args = gen(rng, size)
             else:
                 args = {p: native.gen_value(c.param_type(p), rng, size) for p in params}
+            if time_budget_s is not None and time.time() - t_start > time_budget_s:
+                out['stopped'] = f'time budget {time_budget_s}s'
+                break
             out['cases'] += 1
             key = native.safe_repr(args, 600)
             status, failures = native.run_case(c, fn, args, params, spec.get('env'))
@@ -309,6 +316,7 @@ def main(argv=None):
             violations.append(('native', dict(function=nres['function'], **f)))
     # for failed obligations: search a concrete failing input natively (replay)
     final_violations = []
+    _search_cache = {}
     for kind, v in violations:
         fn = v['function']
         matched = [fd for fd in findings if finding_matches(fd, pid, fn, v)]
@@ -327,7 +335,11 @@ def main(argv=None):
                                          outcome='the real function satisfied the contract on the model input '
                                                  '(the model exploits an abstraction) or the input was outside requires')
             if found is None and c is not None and c.native:
-                nres = native_check(c, 3000, seed + 1, c.native.get('size', 4))
+                # one native search per function (not per failed obligation), within a time budget
+                if fn not in _search_cache:
+                    _search_cache[fn] = native_check(c, 3000, seed + 1, c.native.get('size', 4),
+                                                     time_budget_s=SEARCH_BUDGET_S)
+                nres = _search_cache[fn]
                 if nres.get('failures'):
                     found = nres['failures'][0]
             v['failing_input'] = found
